@@ -109,6 +109,15 @@ let handle line =
   | ["decstr"; h] -> res_str (fun (rs, r) -> Printf.sprintf "ok %s %d" (string_of_runes rs) (List.length r)) (decode_string (bytes_of_hex h))
   | ["encbin"; h] -> hex_of_bytes (encode_binary (bytes_of_hex h))
   | ["decbin"; h] -> res_str (fun (bs, r) -> Printf.sprintf "ok %s %d" (hex_of_bytes bs) (List.length r)) (decode_binary (bytes_of_hex h))
+  | "pool" :: size :: ops ->
+    let op s =
+      if s.[0] = 'g' then PGet (nat_of_int (int_of_string (String.sub s 1 (String.length s - 1))))
+      else match String.split_on_char ':' (String.sub s 1 (String.length s - 1)) with
+        | [c; o] -> PReturn (nat_of_int (int_of_string c), nat_of_int (int_of_string o))
+        | _ -> failwith "pool op" in
+    let tr = run_trace (List.map op ops) (new_pool (nat_of_int (int_of_string size))) in
+    String.concat " " (List.map (fun (o, fill) ->
+      (match o with Some x -> string_of_int (int_of_nat x) | None -> "-") ^ "/" ^ string_of_int (int_of_nat fill)) tr)
   | ["parse"; h] -> res_str (fun v -> "ok " ^ hval_str v) (hparse_all (bytes_of_hex h))
   | ["parseseq"; h] -> parse_seq (bytes_of_hex h)
   | _ -> Driver_ext.handle line
